@@ -18,7 +18,11 @@ def call_build(cfg):
     from mlinsights.timeseries.utils import build_ts_X_y
     from mlinsights.timeseries.base import BaseTimeSeries
     n, past, d2, ncol = cfg["n"], cfg["past"], cfg["delay2"], cfg["ncol"]
-    model = BaseTimeSeries(past=past, delay1=1, delay2=d2)
+    if (n + past) % 2:
+        model = BaseTimeSeries(past=past, delay1=1, delay2=d2)
+    else:       # configured after construction (clone + set_params)
+        model = BaseTimeSeries(past=past + 1, delay1=1, delay2=d2 + 1)
+        model.set_params(past=past, delay2=d2)
     y = numpy.arange(n, dtype=numpy.float64)
     X = None if ncol == 0 else numpy.array(
         [[100 * (c + 1) + t for c in range(ncol)] for t in range(n)], dtype=numpy.float64)
@@ -158,8 +162,10 @@ def c2s_mape(ctx, count):
             ctx.skipped.append("ts_mape infinite branch (numpy.infty removed in NumPy 2)") \
                 if not ctx.skipped else None
             continue
-        ea = numpy.array(e, dtype=float)
-        pa = numpy.array([numpy.nan if v == -1 else v for v in p], dtype=float)
+        # the unit of the series is the caller's business: the ratio does not depend on it (powers of two are exact)
+        unit = 2.0 ** rng.choice([0, 0, -40, 30])
+        ea = numpy.array(e, dtype=float) * unit
+        pa = numpy.array([numpy.nan if v == -1 else v for v in p], dtype=float) * unit
         try:
             v = ts_mape(ea, pa, sample_weight=numpy.array(w, dtype=float) if weighted else None)
         except Exception as ex:
